@@ -79,6 +79,49 @@ func printUncovered(c *Ctx, prop string) {
 			}
 		}
 	}
+	if os.Getenv("NPCHECK_COVERED_OUT") != "" {
+		// dev: append the names of ALL module functions some obligation refers to
+		var all []*span
+		for _, fn := range c.P.Funcs {
+			if fn.Syntax() == nil || inTesting(fn) {
+				continue
+			}
+			lo := c.P.Fset.Position(fn.Syntax().Pos())
+			hi := c.P.Fset.Position(fn.Syntax().End())
+			rel := lo.Filename
+			if i := strings.Index(rel, "/repo/"); i >= 0 {
+				rel = rel[i+6:]
+			}
+			n := 0
+			for _, b := range fn.Blocks {
+				n += len(b.Instrs)
+			}
+			all = append(all, &span{name: FuncName(fn), file: rel, lo: lo.Line, hi: hi.Line, n: n})
+		}
+		for _, o := range c.Obls {
+			file, line := "", 0
+			if i := strings.LastIndex(o.Pos, ":"); i > 0 {
+				file = o.Pos[:i]
+				line, _ = strconv.Atoi(o.Pos[i+1:])
+			}
+			for _, s := range all {
+				if strings.Contains(o.Key, s.name) || (file != "" && strings.HasSuffix(s.file, file) && line >= s.lo && line <= s.hi) {
+					s.covered = true
+				}
+			}
+		}
+		f, err := os.OpenFile(os.Getenv("NPCHECK_COVERED_OUT"), os.O_APPEND|os.O_CREATE|os.O_WRONLY, 0644)
+		if err == nil {
+			for _, s := range all {
+				st := "U"
+				if s.covered {
+					st = "C"
+				}
+				fmt.Fprintf(f, "%s\t%s\t%s:%d\t%d\n", st, s.name, s.file, s.lo, s.n)
+			}
+			f.Close()
+		}
+	}
 	sort.Slice(spans, func(i, j int) bool { return spans[i].n > spans[j].n })
 	tot, unc := 0, 0
 	for _, s := range spans {
